@@ -451,3 +451,77 @@ fn huge_lig_table() {
     } } }
     println!("STATS {{\"driver\": \"huge lig/kern tables\", \"texts\": {n_texts}}}");
 }
+
+// ---------------------------------------------------------------- C10: dimensions at the ends of the fix_word range, tables beyond their limits
+#[test]
+fn extreme_pl_values() {
+    std::panic::set_hook(Box::new(|info| { println!("PANICLOC {}", info.to_string().replace('\n', " ").chars().take(300).collect::<String>()); }));
+    let ext = ["2047.0", "-2047.0", "2047.9999", "-2047.9", "2046.0", "1024.0", "-1024.5", "0.0000001", "-0.0000001", "1013.0", "-16.0", "-17.0"];
+    let mut texts: Vec<String> = vec![];
+    // one character (every code that matters for the checksum) with one extreme dimension
+    for c in [0u32, 1, 127, 128, 254, 255] { for prop in ["CHARWD", "CHARHT", "CHARDP", "CHARIC"] { for v in ext {
+        texts.push(format!("(CHARACTER D {c} ({prop} R {v}))"));
+    } } }
+    // more distinct values than a table may hold, spanning the whole range: compress must merge classes
+    for (prop, limit) in [("CHARHT", 15usize), ("CHARDP", 15), ("CHARIC", 63), ("CHARWD", 255)] {
+        for extremes in [&["2047.0", "-2047.0"][..], &["2046.0", "2047.0"][..], &["-2047.0", "-2046.5"][..], &["2047.9999", "-2047.9999", "0.0000001"][..]] {
+            let mut pl = String::new();
+            let n = (limit + 1 + extremes.len()).min(256);
+            for k in 0..n {
+                let v = if k < extremes.len() { extremes[k].to_string() } else { format!("{}.0", 100 * (k - extremes.len() + 1) % 2000) };
+                pl.push_str(&format!("(CHARACTER D {k} (CHARWD R {}.5) ({prop} R {v}))\n", k % 7));
+            }
+            texts.push(pl);
+        }
+    }
+    // parameters, kerns, design size and units at the extremes
+    for v in ext {
+        texts.push(format!("(FONTDIMEN (SLANT R {v}) (SPACE R {v}) (PARAMETER D 30 R {v}))"));
+        texts.push(format!("(CHARACTER C A (CHARWD R 1.0))(LIGTABLE (LABEL C A) (KRN C A R {v}) (STOP))"));
+        texts.push(format!("(DESIGNSIZE R {v})(DESIGNUNITS R {v})(CHARACTER C A (CHARWD R 1.0))"));
+        texts.push(format!("(DESIGNUNITS R {v})(CHARACTER D 255 (CHARWD R 2047.0) (CHARHT R -2047.0))"));
+    }
+    let n_texts = texts.len();
+    for pl in texts {
+        let p2 = pl.clone();
+        let res = std::panic::catch_unwind(move || { let (bytes, _) = pl_to_tfm(&p2); crate::File::deserialize(&bytes).0.is_ok() });
+        let short: String = pl.chars().take(260).collect::<String>().replace('\n', " ");
+        match res {
+            Err(_) => { println!("WITNESS {{\"fn\": \"pl_to_tfm\", \"unit_fns\": [\"checksum\", \"compress\", \"from\"], \"pl_text\": \"{short}\", \"observed\": \"panic\", \"expected\": \"a .tfm file and warnings (C10)\"}}"); return; }
+            Ok(false) => { println!("WITNESS {{\"fn\": \"pl_to_tfm\", \"unit_fns\": [\"from\", \"serialize\"], \"pl_text\": \"{short}\", \"observed\": \"the .tfm written for this text is rejected by the TFM reader\", \"expected\": \"a readable .tfm (C10)\"}}"); return; }
+            Ok(true) => {}
+        }
+    }
+    println!("STATS {{\"driver\": \"extreme property-list values\", \"texts\": {n_texts}}}");
+}
+
+// ---------------------------------------------------------------- C10: two inputs the code cannot handle yet (known_findings.json)
+/// a font that does not fit the format: more than 32767 words (here 20000 instructions + 20000 distinct kerns)
+#[test]
+fn font_too_big_for_the_format() {
+    std::panic::set_hook(Box::new(|info| { println!("PANICLOC {}", info.to_string().replace('\n', " ").chars().take(300).collect::<String>()); }));
+    let mut pl = String::from("(CHARACTER C A (CHARWD R 1.0))\n(CHARACTER C B (CHARWD R 1.0))\n(LIGTABLE\n   (LABEL C A)\n");
+    for k in 0..20000 { pl.push_str(&format!("   (KRN C B R {}.{:04})\n", k / 10000, k % 10000)); }
+    pl.push_str("   (STOP)\n   )\n");
+    let res = std::panic::catch_unwind(move || { let (bytes, _) = pl_to_tfm(&pl); crate::File::deserialize(&bytes).0.is_ok() });
+    match res {
+        Ok(true) => println!("STATS {{\"driver\": \"font too big\", \"texts\": 1}}"),
+        Err(_) => println!("WITNESS {{\"fn\": \"pl_to_tfm\", \"class\": \"font of more than 32767 words\", \"unit_fns\": [\"serialize\", \"valid_lf\"], \"pl_text\": \"(CHARACTER C A ..)(CHARACTER C B ..)(LIGTABLE (LABEL C A) 20000 x (KRN C B R <distinct>) (STOP))\", \"observed\": \"panic\", \"expected\": \"a .tfm file and warnings, or a documented error (C10)\"}}"),
+        Ok(false) => println!("WITNESS {{\"fn\": \"pl_to_tfm\", \"class\": \"font of more than 32767 words\", \"unit_fns\": [\"serialize\", \"valid_lf\"], \"pl_text\": \"(LIGTABLE (LABEL C A) 20000 x (KRN C B R <distinct>) (STOP))\", \"observed\": \"the .tfm written for this text is rejected by the TFM reader\", \"expected\": \"a readable .tfm (C10)\"}}"),
+    }
+}
+/// 100000 nested opening parentheses: the nested list is built without recursion but dropped / lowered recursively, which
+/// exhausts the stack - the process ABORTS, so the case runs in a child process (this test binary, one ignored test)
+#[test]
+#[ignore]
+fn deep_nesting_child() { let pl = "(A ".repeat(100_000); let _ = pl_to_tfm(&pl); }
+#[test]
+fn deeply_nested_parentheses() {
+    let exe = std::env::current_exe().unwrap();
+    let out = std::process::Command::new(exe).args(["--exact", "verif_witness::deep_nesting_child", "--ignored", "--test-threads", "1"]).stdin(std::process::Stdio::null()).output();
+    match out {
+        Ok(o) if o.status.success() => println!("STATS {{\"driver\": \"deep nesting\", \"texts\": 1}}"),
+        Ok(o) => println!("WITNESS {{\"fn\": \"pl_to_tfm\", \"class\": \"stack exhausted by deeply nested parentheses\", \"unit_fns\": [\"from_pl_source_code\"], \"pl_text\": \"100000 x `(A `\", \"observed\": \"the process died: {}\", \"expected\": \"a .tfm file and warnings (C10)\"}}", format!("{:?}", o.status).replace('"', "'")),
+        Err(e) => println!("STATS {{\"driver\": \"deep nesting\", \"not_run\": \"{}\"}}", format!("{e}").replace('"', "'")),
+    }
+}
